@@ -640,17 +640,7 @@ def rule_r5(ck, prog, cls_suffix, target=EXPORTER_SHUTDOWN, method='Shutdown', t
                          path=g.describe_path(g.path(g.entry, tp, avoid_edges=_rmw_guard_edge(g, rd)) or []))
 
 
-def _joinable_false(a, b, lab):
-    """the false edge of `t.joinable()` / `ptr_to_thread` tests is the "no thread to join" case"""
-    if lab and isinstance(lab[0], int) and lab[2] is False:
-        sub = [lab[1].nodes[i] for i in lab[1].subtree(lab[0])]
-        if any(s['k'] == 'call' and qmatch(s.get('c', ''), 'std::thread::joinable') for s in sub):
-            return True
-        core, pol = norm_cond(lab[1], lab[0])
-        cn = lab[1].nodes[core]
-        if pol and 'std::thread' in (cn.get('t') or '') and 'unique_ptr' in (cn.get('t') or ''):
-            return True
-    return False
+from .common import no_thread_edge as _joinable_false   # the "there is no thread" outcome of a test of the thread handle
 
 
 def rule_r6_join(ck, prog, roles, batch=True):
